@@ -6,6 +6,7 @@ package main
 import (
 	"fmt"
 	"go/token"
+	"go/types"
 	"sort"
 	"strings"
 
@@ -786,6 +787,35 @@ func (c *Ctx) okFlagGuards(si *siteInfo, v ssa.Value) bool {
 			if e2, ok := l.Val.(*ssa.Extract); ok && e2.Tuple == ex.Tuple && e2.Index != ex.Index {
 				return true
 			}
+		}
+	}
+	// the flag of a loop-free (value, ok) helper is read as the path condition of its one `ok` return: the site is
+	// guarded by the flag when it is guarded by all of those literals
+	call, isCall := ex.Tuple.(*ssa.Call)
+	if !isCall || call.Referrers() == nil {
+		return false
+	}
+	for _, rr := range *call.Referrers() {
+		e2, ok := rr.(*ssa.Extract)
+		if !ok || e2.Index == ex.Index {
+			continue
+		}
+		if b, isB := e2.Type().Underlying().(*types.Basic); !isB || b.Kind() != types.Bool {
+			continue
+		}
+		f := c.P.inlineBoolHelper(call, e2.Index, 0)
+		if f == nil {
+			continue
+		}
+		lits := literals(f, true)
+		all := len(lits) > 0
+		for _, want := range lits {
+			if !hasLit(si.All, func(l Lit) bool { return l.Key == want.Key && l.Pos == want.Pos }) {
+				all = false
+			}
+		}
+		if all {
+			return true
 		}
 	}
 	return false
